@@ -241,3 +241,23 @@ V("c02-silent-sorted-parents", "C02", "silent", AN, "self.assignments[i](X[:, se
 V("c02-silent-temp", "C02", "silent", AN, "                assignment = np.transpose(self.assignments[i](X[:, self.A[:, i] != 0]))\n", "                parents = self.A[:, i] != 0\n                f = self.assignments[i]\n                assignment = np.transpose(f(X[:, parents]))\n", what="temporaries")
 V("c02-silent-not-in", "C02", "silent", AN, "                elif i in noise_interventions:\n                    noise = noise_interventions[i](n)\n                # No intervention: sample noise from original distribution\n                else:\n                    noise = self.noise_distributions[i](n)",
   "                elif i not in noise_interventions:\n                    noise = self.noise_distributions[i](n)\n                else:\n                    noise = noise_interventions[i](n)", what="branches swapped with negated test")
+
+# ------------------------------------------------------------------------------- C04 / C20
+V("c04-mvn-swapped", "C04", "fire", ND, "np.random.multivariate_normal(self.mean, self.covariance, size=n)", "np.random.multivariate_normal(self.mean, self.covariance ** 0.5, size=n)", rule="SLOTS", what="covariance slot receives something else")
+V("c04-mvn-size-p", "C04", "fire", ND, "np.random.multivariate_normal(self.mean, self.covariance, size=n)", "np.random.multivariate_normal(self.mean, self.covariance, size=self.p)", rule="SLOTS", what="size is p")
+V("c04-mvn-centered", "C04", "fire", ND, "        return np.random.multivariate_normal(self.mean, self.covariance, size=n)", "        X = np.random.multivariate_normal(self.mean, self.covariance, size=n)\n        return X - X.mean(axis=0)", rule="RESULT", what="sample re-centred")
+V("c04-other-distribution", "C04", "fire", LG, "            return distribution.sample(n, random_state=random_state)", "            return NormalDistribution(self.means, covariance).sample(n, random_state=random_state)", rule="SAME-OBJECT", what="finite path ignores the intervened mean")
+V("c04-n-plus-one", "C04", "fire", LG, "            return distribution.sample(n, random_state=random_state)", "            return distribution.sample(n + 1, random_state=random_state)", rule="FORWARD.n", what="wrong sample size")
+V("c04-noise-var-as-sd", "C04", "fire", NO, "return lambda n: np.random.normal(mean, var**0.5, n)", "return lambda n: np.random.normal(mean, var, n)", rule="UNIT", what="variance passed as standard deviation")
+V("c04-silent-sqrt", "C04", "silent", NO, "return lambda n: np.random.normal(mean, var**0.5, n)", "return lambda n: np.random.normal(loc=mean, scale=np.sqrt(var), size=n)", what="sqrt + keywords")
+V("c20-noise-var-as-sd", "C20", "fire", NO, "return lambda n: np.random.normal(mean, var**0.5, n)", "return lambda n: np.random.normal(mean, var, n)", rule="SLOTS.normal", what="variance passed as standard deviation")
+V("c20-uniform-swapped", "C20", "fire", NO, "return lambda n: np.random.uniform(lo, hi, n)", "return lambda n: np.random.uniform(hi, lo, n)", rule="SLOTS.uniform", what="bounds swapped")
+V("c20-laplace-scale-half", "C20", "fire", NO, "return lambda n: np.random.laplace(mean, scale, n)", "return lambda n: np.random.laplace(mean, scale / 2, n)", rule="SLOTS.laplace", what="scale halved")
+V("c20-laplace-as-normal", "C20", "fire", NO, "return lambda n: np.random.laplace(mean, scale, n)", "return lambda n: np.random.normal(mean, scale, n)", rule="R6", what="wrong law")
+V("c20-uniform-generator", "C20", "fire", NO, "return lambda n: np.random.uniform(lo, hi, n)", "rng = np.random.default_rng()\n    return lambda n: rng.uniform(lo, hi, n)", rule="R6", what="private generator: not reproducible by seeding the global stream")
+V("c20-zero-ones", "C20", "fire", NO, "return lambda n: np.zeros(n)", "return lambda n: np.zeros(n) + 1e-12", rule="CONST.zero", what="zero noise not zero")
+V("c20-normal-default-var", "C20", "fire", NO, "def normal(mean=0, var=1):", "def normal(mean=0, var=2):", rule="DEFAULTS", what="default variance changed")
+V("c20-uniform-n-plus", "C20", "fire", NO, "return lambda n: np.random.uniform(lo, hi, n)", "return lambda n: np.random.uniform(lo, hi, n + 1)", rule="SLOTS.uniform", what="wrong number of draws")
+V("c20-normal-shifted", "C20", "fire", NO, "return lambda n: np.random.normal(mean, var**0.5, n)", "return lambda n: np.random.normal(mean, var**0.5, n) + mean", rule="RESULT", what="mean added twice")
+V("c20-silent-kwargs", "C20", "silent", NO, "return lambda n: np.random.laplace(mean, scale, n)", "return lambda n: np.random.laplace(loc=mean, scale=scale, size=n)", what="keyword slots")
+V("c20-silent-def", "C20", "silent", NO, "    return lambda n: np.random.uniform(lo, hi, n)", "    def draw(n):\n        return np.random.uniform(lo, hi, n)\n    return draw", what="nested def for lambda")
